@@ -76,7 +76,13 @@ func runC10A(c retainCase) (bool, []string, error) {
 		}
 	}
 	n := 0
-	rerr := avro.ReadFile(bytes.NewReader(file), reflect.New(typ).Elem().Interface(), func(val unsafe.Pointer, rb *avro.ResourceBank) error {
+	// one caller-owned struct passed by pointer to both reads, or a fresh value each time
+	out1, out2 := reflect.New(typ).Elem().Interface(), reflect.New(typ).Elem().Interface()
+	if c.GCEvery%2 == 1 || len(c.CloseAt)%3 == 0 {
+		p := reflect.New(typ)
+		out1, out2 = p.Interface(), p.Interface()
+	}
+	rerr := avro.ReadFile(bytes.NewReader(file), out1, func(val unsafe.Pointer, rb *avro.ResourceBank) error {
 		cp := reflect.New(typ).Elem()
 		cp.Set(reflect.NewAt(typ, val).Elem())
 		k := &kept{v: cp, bank: rb, want: spec.Abs(ts, false, cp), closeAt: -1, open: true, index: n}
@@ -118,8 +124,14 @@ func runC10A(c retainCase) (bool, []string, error) {
 		var sink []spec.AbsVal
 		var banks2 []*avro.ResourceBank
 		k := 0
-		err2 := avro.ReadFile(bytes.NewReader(file), reflect.New(typ).Elem().Interface(), func(val unsafe.Pointer, rb *avro.ResourceBank) error {
+		err2 := avro.ReadFile(bytes.NewReader(file), out2, func(val unsafe.Pointer, rb *avro.ResourceBank) error {
 			sink = append(sink, spec.Abs(ts, false, reflect.NewAt(typ, val).Elem()))
+			if k < len(all) && failure == nil {
+				// the same file: the second read delivers what the first one did
+				if err := spec.Match(all[k].want, sink[k], fmt.Sprintf("second read, record[%d]", k)); err != nil {
+					failure = err
+				}
+			}
 			banks2 = append(banks2, rb)
 			k++
 			if k%2 == 0 {
